@@ -96,7 +96,7 @@ def run(ctx, impl, model, rng, texts, max_children=9):
             cands = set(py_simpler(sym))
             if len(sym) >= 1 and sym[0] == '|' and sym[-1] == '|':
                 cands |= set('|' + t + '|' for t in py_simpler(sym[1:-1]))
-            isvar = [w_str(t) for t in sorted(cands) if smtlib.is_var(impl.Node(t))]
+            isvar = [w_str(t) for t in sorted(cands) if smtlib.is_declared_symbol(impl.Node(t))]
             calls.append((96, [w_str(sym), isvar]))
             meta.append(('SimplifySymbolNames (names)', sym, got))
     res = model.batch(calls)
